@@ -22,6 +22,8 @@ import sys
 import tempfile
 import time
 
+sys.dont_write_bytecode = True
+
 HERE = os.path.dirname(os.path.abspath(__file__))
 VERIF = os.path.dirname(os.path.dirname(HERE))
 sys.path.insert(0, os.path.join(VERIF, 'vlib'))
@@ -126,7 +128,7 @@ def part_repo(jobs):
     def one(f):
         b = os.path.basename(f)[:-4]
         try:
-            c = il2c.translate(open(f).read())
+            c = il2c.translate(open(f, 'rb').read())
         except Exception as e:
             return [(b + ':translate', '%s: %s' % (type(e).__name__, e))]
         cf_ = os.path.join(d, b + '.c')
@@ -173,7 +175,7 @@ def part_il(jobs):
         b = os.path.basename(f)[:-4]
         exp = open(f[:-4] + '.exp', 'rb').read()
         try:
-            c = il2c.translate(open(f).read(), export_map={'main': 'main'})
+            c = il2c.translate(open(f, 'rb').read(), export_map={'main': 'main'})
         except Exception as e:
             return b, '%s: %s' % (type(e).__name__, e)
         return b, (exp, build_and_run(b, c, d))
